@@ -45,7 +45,9 @@ YIELD_MAXLEN = {"quick": 4, "thorough": 4}
 KINDS = ("list", "tuple", "gen", "iter")
 ONESHOT = ("gen", "iter")
 SEMS = ("ident", "grp", "raise2")
-BLOCKS = ("plain", "block")
+# syncblock: the key first makes a plain synchronous call of another (non-blocking) @asynq function - a nested wait that
+# must not flush anything - and then blocks on its batch item
+BLOCKS = ("plain", "block", "syncblock")
 HELPERS = ("amap", "afilter", "afilterfalse", "asift", "asorted", "amax", "amin")
 CHUNK = {"amap": 60, "afilter": 60, "afilterfalse": 60, "asift": 60, "asorted": 25, "amax": 25, "amin": 25}
 RETRY_LETTERS = "LSMX"
@@ -211,6 +213,7 @@ class _Runtime(object):
         for name, f in self.sync.items():
             self.akey[(name, "plain")] = self._plain(deco, f)
             self.akey[(name, "block")] = self._blocking(deco, f, CItem)
+            self.akey[(name, "syncblock")] = self._blocking(deco, f, CItem, True)
 
         @deco()
         def outer(helper, args, kwargs):
@@ -282,12 +285,18 @@ class _Runtime(object):
 
         return key
 
-    def _blocking(self, deco, f, CItem):
+    def _blocking(self, deco, f, CItem, sync_first=False):
         rt = self
+
+        @deco()
+        def helper_noop(x):
+            return x
 
         @deco()
         def key(x):
             rt.calls.append(x)
+            if sync_first:
+                helper_noop(x)  # synchronous re-entry that needs no flush
             yield CItem()
             return f(x)
 
@@ -418,7 +427,7 @@ def run_cell(rt, spec, seq, convs, out, viol):
     n = len(elems)
     exp = rt.expected(spec, elems)
     want_calls = stage_n(spec, n)
-    blocking = spec["block"] == "block"
+    blocking = spec["block"] in ("block", "syncblock")
     want_flush = [want_calls] if (blocking and want_calls > 0) else []
     judge_calls = spec["sem"] != "raise2" or blocking
     fn = rt.helpers[spec["helper"]]
